@@ -45,4 +45,10 @@ TEXT = {
   "level": "Exploration: thousands of generated pages per run; the three agreement relations are evaluated on every result (word count only in its stated sub-domain).",
   "note": _T + " Placeholder content is excluded from the text/HTML comparison.", "ref": "DESIGN.md 4/C09",
  },
+ "C01": {
+  "technique": "property-based testing (rapid) over hand-built node trees and mutated byte streams with a panic/hang/well-formedness oracle; native coverage-guided go fuzzing (same oracle) in the thorough tier",
+  "level": "Exploration: tens of thousands of hand-built trees (all root kinds, odd node types, depth up to 2000) and byte streams per run across the options cross-product, each call under recover and a 30 s watchdog; the thorough tier adds coverage-guided fuzzing of ApplyForReader and of the tree generator's bit-stream on 16 workers.",
+  "note": "Node graphs are acyclic and non-nil; a process-fatal crash is attributed to the case persisted just before execution; the watchdog bound (30 s) is an assumption about what counts as a hang on bounded inputs.",
+  "ref": "DESIGN.md 4/C01",
+ },
 }
